@@ -186,3 +186,13 @@ func (d *Disjunct) MinLen(v ssa.Value, max int) int {
 	}
 	return c
 }
+
+// EntryInt returns the linear form of an integer value of the *entry* function's frame (for
+// contracts that relate something deep in the call tree to a parameter of the entry point).
+func (d *Disjunct) EntryInt(v ssa.Value) *lin.Lin {
+	f := d.f
+	for int(f) >= 0 && int(f) < len(d.it.finfo) && d.it.finfo[f].parent >= 0 {
+		f = d.it.finfo[f].parent
+	}
+	return d.it.intLin(d.d, f, v)
+}
